@@ -775,3 +775,87 @@ pub fn digits(mut idx: u64, radices: &[u64]) -> Vec<u64> {
     }
     d
 }
+
+// ------------------------------------------------------------------------------------------
+// Process aborts. A panic inside a destructor that runs while another panic unwinds aborts the
+// whole process; catch_unwind cannot turn that into an outcome. `./check` therefore re-runs a
+// check that died from a signal in "find-abort" mode: every family is run in a child process, a
+// child that dies is bisected down to one scenario index, and that scenario is reported as a
+// violation (an abort of the process that serves the connection is the strongest form of
+// "run_on panicked").
+
+/// child mode: run the scenarios lo..hi of one family, nothing else. Exit code 0 unless the
+/// process dies.
+pub fn run_range(check: &Check, fam: usize, lo: u64, hi: u64) -> i32 {
+    let f = &check.families[fam];
+    let work = || {
+        (lo..hi.min(f.len())).into_par_iter().for_each(|idx| {
+            let mut st = Stats::default();
+            let _ = guarded(|| run_one(f.as_ref(), idx, &mut st));
+        })
+    };
+    match f.max_threads() {
+        Some(k) => rayon::ThreadPoolBuilder::new().num_threads(k).build().unwrap().install(work),
+        None => work(),
+    }
+    0
+}
+
+fn child_dies(id: &str, tier: &str, fam: usize, lo: u64, hi: u64) -> bool {
+    let exe = std::env::current_exe().expect("own path");
+    let st = std::process::Command::new(exe)
+        .args([id, tier, "--range", &fam.to_string(), &lo.to_string(), &hi.to_string()])
+        .stdout(std::process::Stdio::null())
+        .stderr(std::process::Stdio::null())
+        .status();
+    match st {
+        Ok(s) => s.code().map(|c| c >= 128 || c < 0).unwrap_or(true),
+        Err(_) => false,
+    }
+}
+
+/// parent mode: find a scenario that kills the process. Returns the exit code of the check.
+pub fn find_abort(check: Check, tier: &str) -> i32 {
+    for (fi, fam) in check.families.iter().enumerate() {
+        let n = fam.len();
+        if n == 0 || !child_dies(check.id, tier, fi, 0, n) {
+            continue;
+        }
+        let (mut lo, mut hi) = (0u64, n);
+        while hi - lo > 1 {
+            let mid = lo + (hi - lo) / 2;
+            if child_dies(check.id, tier, fi, lo, mid) {
+                hi = mid;
+            } else if child_dies(check.id, tier, fi, mid, hi) {
+                lo = mid;
+            } else {
+                eprintln!("MACHINERY ERROR property={}: family {} dies as a whole but neither half of {}..{} does", check.id, fam.name(), lo, hi);
+                return 2;
+            }
+        }
+        // determinism gate: the single scenario must kill the process twice more
+        if !(child_dies(check.id, tier, fi, lo, lo + 1) && child_dies(check.id, tier, fi, lo, lo + 1)) {
+            eprintln!("MACHINERY ERROR property={}: scenario {}#{} does not kill the process every time", check.id, fam.name(), lo);
+            return 2;
+        }
+        let dir = format!("{}/replays/{}", out_root(), check.id);
+        let _ = std::fs::create_dir_all(&dir);
+        let path = format!("{}/abort.json", dir);
+        let art = json!({
+            "property": check.id,
+            "tier": tier,
+            "family": fam.name(),
+            "index": lo,
+            "key": "process-abort",
+            "message": "the process serving the connection aborted (a panic while another panic was unwinding, or a fatal signal) - run_on neither returned nor panicked catchably",
+            "scenario": fam.describe(lo),
+            "replay": format!("/verif/check {} replay {}  (the replay dies the same way)", check.id, path),
+        });
+        std::fs::write(&path, serde_json::to_string_pretty(&art).unwrap()).unwrap();
+        println!("VIOLATION property={} replay={}", check.id, path);
+        println!("  process-abort [{}#{}]: the process aborted while running this scenario (double panic or fatal signal inside the implementation)", fam.name(), lo);
+        return 1;
+    }
+    eprintln!("MACHINERY ERROR property={}: the check died, but no family reproduces it in a child process", check.id);
+    2
+}
